@@ -152,6 +152,10 @@ pub struct Exec {
     pub mid_models: Vec<Model>,
     /// a version was installed since the last full point audit (big pools are sampled otherwise)
     pub layout_changed: bool,
+    /// the last op ran a merging compaction to completion (both merge flavours drop dead blob files)
+    pub merge_happened: bool,
+    /// blob files of the version that had no reference left at the previous audit (C09)
+    pub dead_blob_files: Vec<u64>,
 }
 
 pub fn resolve_bound(keys: &[Key], b: &BoundSpec) -> Bound<Key> {
@@ -282,6 +286,8 @@ impl Exec {
             clock_secs: 0,
             mid_models: vec![],
             layout_changed: true,
+            merge_happened: false,
+            dead_blob_files: vec![],
         }
     }
 
@@ -595,6 +601,7 @@ impl Exec {
     pub fn apply(&mut self, op: &Op) -> R<()> {
         self.op_no += 1;
         self.mid_models.clear();
+        self.merge_happened = false;
         match op {
             Op::Insert { k, len } => self.single_write(*k, WKind::Put(*len)),
             Op::Remove { k } => self.single_write(*k, WKind::Del),
@@ -717,6 +724,7 @@ impl Exec {
                     if tables_before == tables_after && before != after {
                         self.stats.bump("c.trivial_move");
                     } else if tables_before != tables_after {
+                        self.merge_happened = true;
                         self.stats.bump("c.merge");
                         let removed = tables_before.iter().filter(|t| !tables_after.contains(t)).count();
                         if removed < tables_before.len() {
@@ -735,7 +743,8 @@ impl Exec {
                     1u64 << (*target_log2)
                 };
                 if self.tree().table_count() > 0 {
-                    self.maint("major", |tree| tree.major_compact(target, t))?;
+                    let n = self.maint("major", |tree| tree.major_compact(target, t))?;
+                    self.merge_happened = n > 0;
                     self.stats.bump("m.major");
                 }
             }
@@ -757,9 +766,10 @@ impl Exec {
                 let t = self.wm(*wm);
                 if self.pulldown_ok(a, b) {
                     self.note_wm(t);
-                    self.maint("pulldown", |tree| {
+                    let n = self.maint("pulldown", |tree| {
                         tree.compact(Arc::new(lsm_tree::compaction::PullDown(a, b)), t)
                     })?;
+                    self.merge_happened = n > 0;
                     self.stats.bump("m.pulldown");
                 } else {
                     self.stats.bump("skip.pulldown");
